@@ -306,7 +306,7 @@ class Vector(AutoSerialize):
             if isinstance(dim_idx, slice):
                 start, stop, step = dim_idx.indices(dim_size)
                 return np.arange(start, stop, step)
-            elif isinstance(dim_idx, (np.ndarray, list)):
+            elif isinstance(dim_idx, (np.ndarray, list, tuple, range)):
                 idx = np.asarray(dim_idx)
                 if np.any((idx < 0) | (idx >= dim_size)):
                     raise IndexError(f"Index out of bounds for axis with size {dim_size}")
@@ -375,7 +375,7 @@ class Vector(AutoSerialize):
             if isinstance(dim_idx, slice):
                 start, stop, step = dim_idx.indices(dim_size)
                 return np.arange(start, stop, step)
-            elif isinstance(dim_idx, (np.ndarray, list)):
+            elif isinstance(dim_idx, (np.ndarray, list, tuple, range)):
                 idx = np.asarray(dim_idx)
                 if np.any((idx < 0) | (idx >= dim_size)):
                     raise IndexError(f"Index out of bounds for axis with size {dim_size}")
@@ -450,7 +450,7 @@ class Vector(AutoSerialize):
 
         # Convert lists/arrays to ndarray
         idx_converted: Tuple[Union[int, slice, np.ndarray[Any, np.dtype[Any]]], ...] = tuple(
-            np.asarray(i) if isinstance(i, (list, np.ndarray)) else i for i in normalized
+            np.asarray(i) if isinstance(i, (list, tuple, range, np.ndarray)) else i for i in normalized
         )
 
         # Check if we should return a numpy array (all indices are integers)
@@ -469,7 +469,7 @@ class Vector(AutoSerialize):
             if isinstance(dim_idx, slice):
                 start, stop, step = dim_idx.indices(dim_size)
                 return np.arange(start, stop, step)
-            elif isinstance(dim_idx, (np.ndarray, list)):
+            elif isinstance(dim_idx, (np.ndarray, list, tuple, range)):
                 return np.asarray(dim_idx)
             elif isinstance(dim_idx, (int, np.integer)):
                 return np.array([dim_idx])
@@ -519,7 +519,7 @@ class Vector(AutoSerialize):
 
         # Convert lists/arrays to ndarray
         idx_converted: Tuple[Union[int, slice, np.ndarray[Any, np.dtype[Any]]], ...] = tuple(
-            np.asarray(i) if isinstance(i, (list, np.ndarray)) else i for i in normalized
+            np.asarray(i) if isinstance(i, (list, tuple, range, np.ndarray)) else i for i in normalized
         )
 
         # Fewer indices than fixed dimensions address whole sub-blocks, as in __getitem__
@@ -557,7 +557,7 @@ class Vector(AutoSerialize):
                 if isinstance(dim_idx, slice):
                     start, stop, step = dim_idx.indices(dim_size)
                     return np.arange(start, stop, step)
-                elif isinstance(dim_idx, (np.ndarray, list)):
+                elif isinstance(dim_idx, (np.ndarray, list, tuple, range)):
                     idx = np.asarray(dim_idx)
                     if np.any((idx < 0) | (idx >= dim_size)):
                         raise IndexError(f"Index out of bounds for axis with size {dim_size}")
